@@ -274,7 +274,18 @@ pub fn view(book: &Spreadsheet) -> String {
             let mut shared_seen: std::collections::HashSet<u32> = std::collections::HashSet::new();
             for c in ws.get_cell_collection_sorted() {
                 let coord = c.get_coordinate().get_coordinate();
-                let kind = c.get_data_type();
+                // a value stored with set_value_lazy and never resolved stands for what the public resolver makes of
+                // it (the writer saves that typed value); the resolver drops the formula of the copy, not of `c`
+                let resolved_copy: Option<umya_spreadsheet::structs::Cell> = match c.get_raw_value() {
+                    umya_spreadsheet::structs::CellRawValue::Lazy(_) => {
+                        let mut k = (*c).clone();
+                        let _ = k.get_value_lazy();
+                        Some(k)
+                    }
+                    _ => None,
+                };
+                let vc: &umya_spreadsheet::structs::Cell = resolved_copy.as_ref().unwrap_or(c);
+                let kind = vc.get_data_type();
                 // a shared-formula child is written as a reference to its master (`<f t="shared" si=…/>`);
                 // what the reference expands to is C03's subject, here only the structure is compared
                 let is_child = match c.get_formula_shared_index() {
@@ -284,7 +295,7 @@ pub fn view(book: &Spreadsheet) -> String {
                 let f_owned: String = if is_child { "\u{1}shared".to_string() } else { c.get_formula().to_string() };
                 let f: &str = &f_owned;
                 if !(kind.is_empty() && f.is_empty()) {
-                    cells.push(format!("{}/{}/{}/{}", coord, kind, hexs(&c.get_value()), if f.is_empty() { "~".to_string() } else { hexs(f) }));
+                    cells.push(format!("{}/{}/{}/{}", coord, kind, hexs(&vc.get_value()), if f.is_empty() { "~".to_string() } else { hexs(f) }));
                 }
                 if let Some(h) = c.get_hyperlink() {
                     links.push(format!("{}/{}/{}/{}", coord, if *h.get_location() { "l" } else { "e" }, hexs(h.get_url()), hexs(h.get_tooltip())));
